@@ -231,4 +231,8 @@ func init() {
 		"		if tr.Start.Before(ptr.Start) {\n			end = mid - 1", "		if tr.End.Before(ptr.Start) {\n			end = mid - 1", "C03.R2.direction")
 	mut("C03", "the search turns right when the range starts before the probe", "cesium/internal/domain/index.go",
 		"		if tr.Start.Before(ptr.Start) {\n			end = mid - 1\n		} else {\n			start = mid + 1\n		}", "		if tr.Start.Before(ptr.Start) {\n			start = mid + 1\n		} else {\n			end = mid - 1\n		}", "C03.R2.direction")
+
+	// ---------------- ERR
+	mut("C02", "a failed directory rename is ignored in the batch delete", "cesium/delete.go",
+		"		err = db.fs.Rename(oldName, newName)\n		if err != nil {\n			return\n		}\n\n		directoriesToRemove = append(directoriesToRemove, newName)\n	}\n\n	// Do another pass", "		_ = db.fs.Rename(oldName, newName)\n\n		directoriesToRemove = append(directoriesToRemove, newName)\n	}\n\n	// Do another pass", "C02.ERR")
 }
